@@ -70,6 +70,7 @@ def correspondence(ctx, violations, known_hits):
                 violations.append({"kind": "run-after-reset-differs-from-fresh-run", "case": cases[a], "fresh_case": cases[b],
                                    "after_reset": ri[a][0], "fresh": ri[b][0]})
     real = dbgcommon.cli_cross(ctx, specs, violations, limit=(30 if ctx.tier == "quick" else 600))
+    r["evaluations"] += real.get("sessions", 0)
     ctx.cleanup()
     return dbgcommon.coverage(r,
         "random histories of executing and mutating commands (move to registers/memory incl. the program's own code, below the origin, "
